@@ -237,20 +237,23 @@ def check_hist(case):
     try:
         for name, w in hist:
             if name == "reverse":
-                if (len(hist) + K) % 2 and p.count_subpaths() == 1:
-                    p.subpath(0).reverse()       # the same reversal through the view of the (only) sub-path
-                else:
-                    p.reverse()
+                p.reverse()
+                continue
+            if name == "subreverse":         # the same reversal through the view of the (only) sub-path
+                p.subpath(0).reverse()
                 continue
             if name == "scale2":
-                if (len(hist) + K) % 2 and p.count_subpaths() == 1:
-                    # the same map through the view of the (only) sub-path: it rewrites the segments of the path in place
-                    sp = p.subpath(0)
-                    sp *= svg.Matrix.scale(2)
-                else:
-                    p *= svg.Matrix.scale(2)
-                    p.reify()
+                p *= svg.Matrix.scale(2)
+                p.reify()
                 K *= 2
+                continue
+            if name == "subscale2":          # the same map through the view of the (only) sub-path: it rewrites the path's segments
+                sp = p.subpath(0)
+                sp *= svg.Matrix.scale(2)
+                K *= 2
+                continue
+            if name == "coarse":
+                p.length(error=1e-2, min_depth=0)
                 continue
             if name == "query":
                 p.point(0.5)
